@@ -215,7 +215,27 @@ fn scenario_for(prop: &Prop, tier: Tier, seed: u64, run: u64) -> Value {
     (prop.generate)(&mut rng, tier)
 }
 
+/// Address-space cap for worker processes: a runaway scenario (for example a seeded change that
+/// disables a limit) then dies quickly with an allocation failure - which the orchestrator reports
+/// as the death of the worker inside the announced run - instead of exhausting the machine.
+fn cap_address_space() {
+    #[repr(C)]
+    struct RLimit {
+        cur: u64,
+        max: u64,
+    }
+    unsafe extern "C" {
+        fn setrlimit(resource: i32, rlim: *const RLimit) -> i32;
+    }
+    const RLIMIT_AS: i32 = 9;
+    let gb: u64 = std::env::var("VERIF_WORKER_GB").ok().and_then(|s| s.parse().ok()).unwrap_or(6);
+    let lim = RLimit { cur: gb << 30, max: gb << 30 };
+    // SAFETY: plain libc call with a valid pointer to a properly laid out struct.
+    let _ = unsafe { setrlimit(RLIMIT_AS, &lim) };
+}
+
 pub fn worker(prop: &Prop, tier: Tier, seed: u64, runs: impl Iterator<Item = u64>) {
+    cap_address_space();
     let out = std::io::stdout();
     for run in runs {
         {
